@@ -76,6 +76,8 @@ type Transport struct {
 	Loss      LossKind
 	// WriteErrAfter >= 0: the (k+1)th Write call fails.
 	WriteErrAfter int
+	// WriteErr: what a failing write returns (nil: ErrSimWrite)
+	WriteErr error
 	OnClose       CloseBehaviour
 
 	Delivered int
@@ -416,7 +418,11 @@ func (t *Transport) Write(b []byte) error {
 		return ErrSimWrite
 	}
 	if t.WriteErrAfter >= 0 && len(t.Writes) >= t.WriteErrAfter {
+		e := t.WriteErr
 		t.mu.Unlock()
+		if e != nil {
+			return e
+		}
 		return ErrSimWrite
 	}
 	cp := append([]byte(nil), b...)
